@@ -551,7 +551,7 @@ inductive Sx where
   | arr (elems : List Sx)                  -- [a b c]
   deriving Repr, Inhabited
 
-inductive PErr | syntax | unknownNode | typeInfo | arity | bindingName | tooMany | unsupported
+inductive PErr | syntax | unknownNode | typeInfo | arity | bindingName | tooMany
   deriving DecidableEq, Repr
 
 /-- Parser.bindingIndex on the list of names in index order -/
@@ -565,7 +565,7 @@ def nodeFields : List (String × List String) := [
   ("ArrayType", ["Len", "Elt"]), ("AssignStmt", ["Lhs", "Tok", "Rhs"]), ("BasicLit", ["Kind", "Value"]),
   ("BinaryExpr", ["X", "Op", "Y"]), ("BranchStmt", ["Tok", "Label"]), ("CallExpr", ["Fun", "Args"]),
   ("CaseClause", ["List", "Body"]), ("ChanType", ["Dir", "Value"]), ("CommClause", ["Comm", "Body"]),
-  ("CompositeLit", ["Type", "Elts"]), ("DeferStmt", ["Call"]), ("EmptyStmt", []),
+  ("CompositeLit", ["Type", "Elts"]), ("DeferStmt", ["Call"]), ("Ellipsis", ["Elt"]), ("EmptyStmt", []),
   ("Field", ["Names", "Type", "Tag"]), ("ForStmt", ["Init", "Cond", "Post", "Body"]),
   ("FuncDecl", ["Recv", "Name", "Type", "Body"]), ("FuncLit", ["Type", "Body"]),
   ("FuncType", ["Params", "Results"]), ("GenDecl", ["Tok", "Specs"]), ("GoStmt", ["Call"]),
@@ -583,13 +583,12 @@ def requiresTypeInfo : List String :=
   ["Symbol", "Builtin", "Object", "IntegerLiteral", "TrulyConstantExpression"]
 
 inductive NodeClass where
-  | tyinfo | unsupported | orC | anyC | notC | listC | bindingC | unknown
+  | tyinfo | orC | anyC | notC | listC | bindingC | unknown
   | struct (fs : List String)
 
 /-- `structNodes[typ]` of parser.go, by the shape populateNode distinguishes -/
 def classify (typ : String) : NodeClass :=
   if requiresTypeInfo.contains typ then .tyinfo
-  else if typ = "Ellipsis" then .unsupported   -- the real parser panics in collectEntryNodes
   else if typ = "Or" then .orC
   else if typ = "Any" then .anyC
   else if typ = "Not" then .notC
@@ -603,7 +602,6 @@ def classify (typ : String) : NodeClass :=
 def populate (typ : String) (objs : List Pat) : Except PErr Pat :=
   match classify typ with
   | .tyinfo => .error .typeInfo
-  | .unsupported => .error .unsupported
   | .unknown => .error .unknownNode
   | .orC => .ok (.or objs)
   | .anyC => (match objs with | [] => .ok .any | _ => .error .arity)
